@@ -13,47 +13,6 @@
 #include "fiber_signal.h"
 #include "vrt_fiber.h"
 
-/* The multi-signal loops call cpu_relax() after a compare_and_swap2 that failed because the
- * (counter, head) snapshot was stale.  The runtime parks a relaxing thread until some OTHER thread
- * changes tracked memory; a retry that would succeed on its own (everybody else idle) would then be
- * reported as a lost wake-up.  This environment action (consulted by the scheduler when nothing
- * else can run; scenarios set VRT_ENV_PCT=0 so that it never fires otherwise) lets every call that
- * is still actively executing a multi-signal operation retry a bounded number of times.  A fiber
- * that sleeps in fiber_multi_signal_wait (state != RUNNING) is not active: a real lost wake-up
- * still ends the run as "quiescent". */
-#define MAXINF 16
-static struct {
-  fiber_t* f;
-  int is_wait;
-  int budget;
-} g_inf[MAXINF];
-static int inf_begin(int is_wait) {
-  for (int i = 0; i < MAXINF; i++)
-    if (!g_inf[i].f) {
-      g_inf[i].f = fiber_manager_get()->current_fiber;
-      g_inf[i].is_wait = is_wait;
-      g_inf[i].budget = 64;
-      return i;
-    }
-  return -1;
-}
-static void inf_end(int i) {
-  if (i >= 0) g_inf[i].f = NULL;
-}
-static int inf_active(int i) {
-  return g_inf[i].f && g_inf[i].budget > 0 && (!g_inf[i].is_wait || g_inf[i].f->state == FIBER_STATE_RUNNING);
-}
-static int retry_enabled(void) {
-  for (int i = 0; i < MAXINF; i++)
-    if (inf_active(i)) return 1;
-  return 0;
-}
-static void retry_act(void) {
-  for (int i = 0; i < MAXINF; i++)
-    if (inf_active(i)) g_inf[i].budget--;
-}
-static int g_retry_registered;
-
 static int sg_obj(const char* kind, const char* name, long arg, void** obj) {
   (void)arg;
   if (!strcmp(kind, "signal")) {
@@ -75,10 +34,6 @@ static int sg_obj(const char* kind, const char* name, long arg, void** obj) {
         {"head", 8, 8, VD_PTR, 0, 0},
     };
     vrt_reg_obj(name, s, sizeof *s, f, 2);
-    if (!g_retry_registered) {
-      g_retry_registered = 1;
-      vrt_env_action("msig_retry", retry_enabled, retry_act);
-    }
     *obj = s;
     return 1;
   }
@@ -100,25 +55,19 @@ static int sg_op(const char* f, const char* op, const char* a1, const char* a2) 
   }
   if (!strcmp(op, "msigwait")) {
     vrt_api("\"f\":\"%s\",\"ph\":\"call\",\"op\":\"msigwait\",\"o\":\"%s\"", f, a1);
-    int k = inf_begin(1);
     fiber_multi_signal_wait(drv_obj("msignal", a1));
-    inf_end(k);
     vrt_api("\"f\":\"%s\",\"ph\":\"ret\",\"op\":\"msigwait\",\"o\":\"%s\",\"r\":1", f, a1);
     return 1;
   }
   if (!strcmp(op, "msigraise")) {
     vrt_api("\"f\":\"%s\",\"ph\":\"call\",\"op\":\"msigraise\",\"o\":\"%s\"", f, a1);
-    int k = inf_begin(0);
     int r = fiber_multi_signal_raise(drv_obj("msignal", a1));
-    inf_end(k);
     vrt_api("\"f\":\"%s\",\"ph\":\"ret\",\"op\":\"msigraise\",\"o\":\"%s\",\"r\":%d", f, a1, r);
     return 1;
   }
   if (!strcmp(op, "msigraisestrict")) {
     vrt_api("\"f\":\"%s\",\"ph\":\"call\",\"op\":\"msigraisestrict\",\"o\":\"%s\"", f, a1);
-    int k = inf_begin(0);
     fiber_multi_signal_raise_strict(drv_obj("msignal", a1));
-    inf_end(k);
     vrt_api("\"f\":\"%s\",\"ph\":\"ret\",\"op\":\"msigraisestrict\",\"o\":\"%s\",\"r\":1", f, a1);
     return 1;
   }
